@@ -1,8 +1,9 @@
 (** C14 — ListMailbox, GetMessage, MarkSeen, GetMessageSource, DeleteMessage, PurgeMailbox of the Go client, run against the server, return and effect exactly what their names say on the mailbox of the name (same guard on names as client_roundtrip) *)
 From IV Require Import Base.Bytes Model.StoreSpec Model.Rest Proofs.RestRoute Proofs.RestClient.
-Theorem client_op_effect : forall mfa cfg base st op mb,
+Theorem client_op_effect : forall mfa cfg srcok base st op mb,
+  (forall m k, srcok m k = true) ->
   basic_op op = true -> good_name (cop_name op) -> op_id_ok op -> Forall good_seg base ->
   mfa (cop_name op) = Some mb ->
-  spec_cop mfa cfg st op = Some (client_do mfa cfg base (join_slash base) st op).
+  spec_cop mfa cfg st op = Some (client_do mfa cfg srcok base (join_slash base) st op).
 Proof. exact RestClient.client_op_effect. Qed.
 Print Assumptions client_op_effect.
